@@ -216,6 +216,14 @@ def handlePTN : Handler := fun st op args =>
     some (st, match n.toInt?, colorOf c, parseTpsRes tr, parseFile toks with
       | some n, some c, some tps, some f => fmtR (positionAtMove (mkEnv st tps) f n c) fmtPos
       | _, _, _, _ => "bad-arg")
+  -- a PTN value queried, given other tags and moves, queried again: the answers of the second file
+  | "ptnreuse", _mode :: n :: c :: tr :: toks =>
+    let fileB := (toks.reverse.takeWhile (· != "||")).reverse
+    some (st, match n.toInt?, colorOf c, parseTpsRes tr, parseFile fileB with
+      | some n, some c, some tps, some f =>
+        let env := mkEnv st tps
+        fmtR (positionAtMove env f n c) fmtPos ++ " / " ++ fmtR (initialPosition env f) fmtPos
+      | _, _, _, _ => "bad-arg")
   | "ptniterf", tr :: toks =>
     some (st, match parseTpsRes tr, parseFile toks with
       | some tps, some f => traceOf (mkEnv st tps) f
